@@ -1,12 +1,182 @@
-"""Replay of verifier counterexamples against the real binary (filled in per unit)."""
+"""Replay of verifier counterexamples against the real `mos` binary (DESIGN §2.2).
+
+A counterexample (the byte vectors of the harness' kani::any() calls) is turned into a tiny
+project, assembled with the binary built from the *same snapshot*, and the observable (output
+bytes / build error / panic) is compared with a reference written from the property statement
+(ISA table, Python integers).  Only a reproduced disagreement confirms the violation as a failing
+input; everything else is reported with `no-failing-input-found`."""
 import json
+import os
+import shutil
+import subprocess
+import sys
+
+HERE = os.path.dirname(os.path.abspath(__file__))
+VERIF = os.path.dirname(HERE)
+CACHE = os.path.join(VERIF, ".cache")
+
+
+def le_int(bs, signed):
+    return int.from_bytes(bytes(bs), "little", signed=signed)
+
+
+def lit(v):
+    """assembler text for an arbitrary i64"""
+    if v >= 0:
+        return str(v)
+    if v == -(2 ** 63):
+        return "(0-9223372036854775807-1)"
+    return "(0-%d)" % (-v)
+
+
+def build_binary(snap):
+    env = dict(os.environ, CARGO_TARGET_DIR=os.path.join(CACHE, "real"), CARGO_NET_OFFLINE="true")
+    p = subprocess.run(["cargo", "build", "--offline", "-p", "mos"], cwd=snap, env=env, capture_output=True, text=True, timeout=900)
+    b = os.path.join(CACHE, "real", "debug", "mos")
+    if p.returncode != 0 or not os.path.exists(b):
+        raise RuntimeError("cannot build mos from the snapshot: " + p.stderr[-500:])
+    return b
+
+
+def run_project(binary, workdir, asm, cmd="build"):
+    d = os.path.join(workdir, "replay-proj")
+    shutil.rmtree(d, ignore_errors=True)
+    os.makedirs(d)
+    open(os.path.join(d, "mos.toml"), "w").write('[build]\nentry = "main.asm"\n')
+    open(os.path.join(d, "main.asm"), "w").write(asm)
+    p = subprocess.run([binary, "--no-color", "-e", "Short", cmd], cwd=d, capture_output=True, text=True, timeout=60)
+    out = None
+    prg = os.path.join(d, "target", "main.prg")
+    if p.returncode == 0 and os.path.exists(prg):
+        out = list(open(prg, "rb").read())
+    res = {"asm": asm, "cmd": "mos --no-color -e Short " + cmd, "exit": p.returncode, "stderr": (p.stdout + p.stderr)[-600:], "prg": out}
+    shutil.rmtree(d, ignore_errors=True)
+    return res
+
+
+# ---------------------------------------------------------------- generators
+def gen_opcodes(rep):
+    isa = json.load(open(os.path.join(VERIF, "spec", "isa6502.json")))["isa"]
+    cex = rep["counterexample"]
+    m = cex["harness"][len("opc_"):]
+    v = le_int(cex["kani_any_values"][0], True)
+    row = isa[m]
+    forms = [("%s", "imp", None, None), ("%s #{v}", None, "imm", None), ("%s {v}", None, "zp", "abs"), ("%s {v},x", None, "zpx", "absx"),
+             ("%s {v},y", None, "zpy", "absy"), ("%s ({v},x)", None, "indx", None), ("%s ({v}),y", None, "indy", None), ("%s ({v})", None, None, "ind")]
+    cases = []
+    for fmt, ik, sk, lk in forms:
+        if "rel" in row:
+            continue  # branches take a target, decided by the branch slice
+        text = (fmt % m).replace("{v}", lit(v))
+        if ik:
+            exp = [row[ik]] if ik in row else None
+            if "{v}" in fmt:
+                continue
+        else:
+            short = row.get(sk) if sk else None
+            long_ = row.get(lk) if lk else None
+            if short is None and long_ is None:
+                exp = None
+            elif long_ is None and v > 255:
+                exp = None
+            elif v < 0 or v > 65535:
+                continue
+            elif v <= 255 and short is not None:
+                exp = [short, v]
+            elif long_ is not None:
+                exp = [long_, v & 255, v >> 8]
+            else:
+                exp = None
+        cases.append(("* = $1000\n" + text + "\n", exp))
+    return cases
+
+
+def gen_branch(rep):
+    vals = rep["counterexample"]["kani_any_values"]
+    value = le_int(vals[0], True)
+    p = le_int(vals[1], False)
+    d = value - (p + 2)
+    exp = [0xd0, d & 255] if -128 <= d <= 127 else None
+    return [("* = %d\nbne %s\n" % (p, lit(value)), exp)]
+
+
+PYOPS = {"apply_add_sub": [("+", lambda a, b: a + b), ("-", lambda a, b: a - b)], "apply_mul": [("*", lambda a, b: a * b)],
+         "apply_div": [("/", lambda a, b: abs(a) // abs(b) * (-1 if (a < 0) != (b < 0) else 1))],
+         "apply_mod": [("%", lambda a, b: (abs(a) % abs(b)) * (-1 if a < 0 else 1))],
+         "apply_shifts": [("<<", lambda a, b: a << b), (">>", lambda a, b: a >> b)],
+         "apply_logic_cmp": [("==", lambda a, b: int(a == b)), ("!=", lambda a, b: int(a != b)), (">", lambda a, b: int(a > b)), (">=", lambda a, b: int(a >= b)),
+                             ("<", lambda a, b: int(a < b)), ("<=", lambda a, b: int(a <= b)), ("&&", lambda a, b: int(a != 0 and b != 0)),
+                             ("||", lambda a, b: int(a != 0 or b != 0)), ("^", lambda a, b: a ^ b)]}
+
+
+def gen_apply(rep):
+    vals = rep["counterexample"]["kani_any_values"]
+    l = le_int(vals[0], True)
+    r = le_int(vals[1], True)
+    cases = []
+    for sym, f in PYOPS.get(rep["counterexample"]["harness"], []):
+        if sym in ("/", "%") and r == 0:
+            continue
+        if sym in ("<<", ">>") and not (0 <= r <= 63):
+            cases.append(("* = $1000\n.byte (%s %s %s) == 0\n" % (lit(l), sym, lit(r)), None))
+            continue
+        e = f(l, r)
+        if not (-(2 ** 63) <= e < 2 ** 63):
+            if sym == "<<":
+                continue  # the property is silent when the shifted value does not fit
+            cases.append(("* = $1000\n.byte (%s %s %s) == 0\n" % (lit(l), sym, lit(r)), None))
+        else:
+            cases.append(("* = $1000\n.byte (%s %s %s) == %s\n" % (lit(l), sym, lit(r), lit(e)), [1]))
+    return cases
+
+
+def generators(rep):
+    unit = rep.get("unit")
+    h = (rep.get("counterexample") or {}).get("harness", "")
+    if unit == "opcodes":
+        return gen_opcodes(rep)
+    if unit == "arith" and h == "branch_full":
+        return gen_branch(rep)
+    if unit == "arith" and h.startswith("apply_") and h in PYOPS:
+        return gen_apply(rep)
+    return None
 
 
 def try_replay(rep, snap, work):
-    return False
+    cex = rep.get("counterexample")
+    if not cex or not cex.get("kani_any_values"):
+        return False
+    cases = generators(rep)
+    if not cases:
+        rep["replay_note"] = "no project generator for this unit: the verifier's counterexample is attached, not replayed"
+        return False
+    binary = build_binary(snap)
+    rep["replays"] = []
+    confirmed = False
+    for asm, exp in cases:
+        r = run_project(binary, work, asm)
+        got = r["prg"][2:] if r["prg"] is not None else None      # strip the 2-byte prg header
+        panicked = r["exit"] == 101 or "panicked" in r["stderr"]
+        ok = (got == exp) and not panicked
+        r["expected_bytes_after_header"] = exp
+        r["observed_bytes_after_header"] = got
+        r["agrees_with_reference"] = ok
+        rep["replays"].append(r)
+        if not ok:
+            confirmed = True
+    rep["replay_confirmed_on_real_binary"] = confirmed
+    return confirmed
 
 
 def replay_file(path):
+    """re-run the check that produced the replay file and show whether the obligation still fails"""
     rep = json.load(open(path))
-    print(json.dumps({k: rep[k] for k in ("property", "obligation", "unit", "verifier_reasons")}, indent=1))
-    return 1
+    print("property=%s obligation=%s unit=%s" % (rep["property"], rep["obligation"], rep["unit"]))
+    for r in rep.get("replays", []):
+        if not r.get("agrees_with_reference"):
+            print("failing input:\n" + r["asm"] + "expected bytes %s, observed %s (exit %s)" % (r["expected_bytes_after_header"], r["observed_bytes_after_header"], r["exit"]))
+    p = subprocess.run([os.path.join(VERIF, "check"), rep["property"], "--tier", rep.get("tier", "quick")], capture_output=True, text=True)
+    still = any(("VIOLATION" in l and os.path.basename(path) in l) for l in p.stdout.split("\n"))
+    print(p.stdout[-1500:])
+    print("obligation %s %s on the current tree" % (rep["obligation"], "STILL FAILS" if still else "no longer fails"))
+    return 1 if still else 0
